@@ -92,8 +92,11 @@ func (tracker *TxTracker) Check(ctx context.Context, mempool *MemPool, transmitt
 		return nil
 	}
 
+	// The requests are transmitted after the tracker is unlocked. Transmitting blocks when the peer
+	// has stopped reading, and block processing (RemoveList) must not wait for that peer.
+	var requests []*wire.MsgGetData
+
 	tracker.mutex.Lock()
-	defer tracker.mutex.Unlock()
 
 	invRequest := wire.NewMsgGetData()
 	requestCount := 0
@@ -116,13 +119,12 @@ func (tracker *TxTracker) Check(ctx context.Context, mempool *MemPool, transmitt
 			// Request
 			if err := invRequest.AddInvVect(item); err != nil {
 				// Too many requests for one message
-				if !transmitter.TransmitMessage(invRequest) {
-					break // node stopped
-				}
+				requests = append(requests, invRequest)
 				invRequest = wire.NewMsgGetData() // Start new message
 
 				// Try to add it again
 				if err := invRequest.AddInvVect(item); err != nil {
+					tracker.mutex.Unlock()
 					return errors.Wrap(err, "Failed to add tx to get data request")
 				} else {
 					requestCount++
@@ -134,9 +136,7 @@ func (tracker *TxTracker) Check(ctx context.Context, mempool *MemPool, transmitt
 			}
 
 			if requestCount > 100 {
-				if !transmitter.TransmitMessage(invRequest) {
-					break // node stopped
-				}
+				requests = append(requests, invRequest)
 				invRequest = wire.NewMsgGetData() // Start new message
 				requestCount = 0
 			}
@@ -144,9 +144,17 @@ func (tracker *TxTracker) Check(ctx context.Context, mempool *MemPool, transmitt
 		} // else wait and check again later
 	}
 
-	// Send any remaining requests.
 	if len(invRequest.InvList) > 0 {
-		transmitter.TransmitMessage(invRequest)
+		requests = append(requests, invRequest)
+	}
+
+	tracker.mutex.Unlock()
+
+	// Send the requests.
+	for _, request := range requests {
+		if !transmitter.TransmitMessage(request) {
+			break // node stopped
+		}
 	}
 
 	return nil
